@@ -440,6 +440,29 @@ def buffer_leaf(v):
     return None
 
 
+def whole_file_read(raw):
+    """Is the value the image length is taken from the whole content of the file?  (True, '') for `f.read()` / `f.read(-1)` /
+    `f.read(None)` / `path.read_bytes()`; (False, why) for a read that is capped (`f.read(n)`): its length is min(file size, n), so
+    a guard on it says nothing about the file; (None, why) for anything else."""
+    v = strip(raw)
+    if v[0] != 'mcall':
+        return None, 'the firmware buffer is not the result of a read call: {}'.format(show(v)[:60])
+    meth, args, kwargs = v[2], v[3], v[4] if len(v) > 4 else ()
+    if meth == 'read_bytes' and not args:
+        return True, ''
+    if meth == 'read':
+        if kwargs:
+            return None, 'read() with keyword arguments'
+        if not args:
+            return True, ''
+        if len(args) == 1 and is_const(args[0]) and (args[0][1] is None or (isinstance(args[0][1], int) and args[0][1] < 0)):
+            return True, ''
+        if len(args) == 1:
+            return False, 'the firmware is read with {}: at most that many bytes arrive, so a file larger than that is cut short and its real size is never seen'.format(
+                show(v)[-60:])
+    return None, 'the firmware buffer comes from {}()'.format(meth)
+
+
 class Sym:
     """Polynomial view of the symbolic values of one path."""
 
